@@ -36,8 +36,11 @@ Apply(e) ==
 Next ==
   /\ l <= Len(Tr)
   /\ l' = l + 1
-  /\ IF Tr[l].e = "reset" THEN c' = C0 /\ tr' = tr + 1
-     ELSE c' = Apply(Tr[l]) /\ tr' = tr
+  /\ IF Tr[l].e = "reset"
+       THEN \* end of one recorded run: report its verdict (the fold goes on with the next run)
+            /\ (c.bad = "" \/ PrintT(ToJson([tr |-> tr, sc |-> Tr[l].sc, bad |-> c.bad])))
+            /\ c' = C0 /\ tr' = tr + 1
+       ELSE c' = Apply(Tr[l]) /\ tr' = tr
 
 Spec == Init /\ [][Next]_vars
 
